@@ -65,7 +65,7 @@ var props = []*propSpec{
 		Scens:  []scenSpec{{Name: "conc", Weight: 2}, {Name: "conc", Opt: map[string]string{"ow": "1"}, Weight: 3}, {Name: "upload", Weight: 1}, {Name: "backend", Weight: 1}, {Name: "lru", Weight: 1}, {Name: "hardlimit", Weight: 1}, {Name: "hostile", Weight: 1}},
 		QuickS: 40, ThorS: 600, Rule: ruleCommon},
 	{ID: "C04", Level: "exploration", Clauses: []string{"C04."},
-		Scens:  []scenSpec{{Name: "conc", Weight: 3}, {Name: "upload", Weight: 2}, {Name: "backend", Weight: 1}, {Name: "lru", Weight: 1}, {Name: "hostile", Weight: 1}},
+		Scens:  []scenSpec{{Name: "conc", Weight: 3}, {Name: "conc", Opt: map[string]string{"ow": "1"}, Weight: 2}, {Name: "upload", Weight: 2}, {Name: "backend", Weight: 1}, {Name: "lru", Weight: 1}, {Name: "hostile", Weight: 1}},
 		QuickS: 40, ThorS: 600, Rule: ruleCommon},
 	{ID: "C07", Level: "exploration", Clauses: []string{"C07.", "C03.", "C04.", "C14.fds", "C02.prefix"},
 		Scens:  []scenSpec{{Name: "conc", Weight: 4}, {Name: "conc", Opt: map[string]string{"ow": "1"}, Weight: 1}},
